@@ -5,6 +5,7 @@ package harness
 // the library's decoder.
 
 import (
+	"sync/atomic"
 	"bytes"
 	"context"
 	"crypto/ecdsa"
@@ -60,8 +61,21 @@ func TLSConfigs() (*tls.Config, *tls.Config) {
 		tlsServerCfg = &tls.Config{Certificates: []tls.Certificate{{Certificate: [][]byte{der}, PrivateKey: key}}}
 		tlsClientCfg = &tls.Config{RootCAs: pool, ServerName: "verif.local"}
 	})
-	return tlsServerCfg.Clone(), tlsClientCfg.Clone()
+	sc, cc := tlsServerCfg.Clone(), tlsClientCfg.Clone()
+	if v := tlsMax.Load(); v != 0 {
+		sc.MaxVersion, cc.MaxVersion = uint16(v), uint16(v)
+	}
+	return sc, cc
 }
+
+const tlsVersion12 = tls.VersionTLS12
+
+var tlsMax atomic.Uint32
+
+// SetTLSMax caps the protocol version of the configurations TLSConfigs hands out from now on (0 = no cap). TLS 1.2 differs
+// from 1.3 in ways a transport can trip over: its alerts are visible as such on the wire, so crypto/tls hands over the last
+// data record together with io.EOF when the peer's close notification is already there.
+func SetTLSMax(v uint16) { tlsMax.Store(uint32(v)) }
 
 // ServerTLSVia returns the server TLS configuration supplied in one of the ways crypto/tls accepts: "" a static certificate
 // list, "getcertificate" a GetCertificate callback, "getconfig" a GetConfigForClient callback (per-client configuration) only.
